@@ -141,8 +141,10 @@ def gen_program(case_seed, force=None):
     # first layer has already been inspected
     modifier = None
     opk = [p[0] for p in po if p[1] == PK]
-    if route in ('global', 'attr') and opk and 'taints' not in force and rnd.random() < 0.2:
+    if route in ('global', 'attr', 'param_partial') and opk and 'taints' not in force and rnd.random() < 0.2:
         kind = rnd.choice(('kwoargs', 'posoargs', 'annotate-late', 'stack-late'))
+        if route == 'param_partial':
+            kind = rnd.choice(('kwoargs', 'posoargs'))      # (the callee reaches the wrapper through the partial object)
         modifier = dict(kind=kind, first='@modifiers.kwoargs(%r)' % opk[-1], late=None)
         if kind == 'posoargs':
             modifier['first'] = '@modifiers.posoargs(end=%r)' % opk[0]
@@ -492,7 +494,7 @@ def assemble(route, po, calls, body, decorate=False, modifier=None):
         fo = 'func' + (', ' + ostr if ostr else '')
         # (a module global named like the parameter, bound to an unrelated function: the parameter wins)
         src += 'def func(zz1, zz2, zz3, zz4): return None\n'
-        src += defs + 'def outer(%s):\n%s\ntarget = functools.partial(outer, callee0)\nraw_outer = outer\n' % (fo, ind(body))
+        src += defs + (deco if modifier else '') + 'def outer(%s):\n%s\ntarget = functools.partial(outer, callee0)\nraw_outer = outer\n' % (fo, ind(body))
         src += 'callee_objs = [callee0]\n'
     elif route == 'default_param':
         # the callee is only the DEFAULT of a keyword-only parameter of a method retrieved bound: a caller
@@ -550,7 +552,7 @@ def own_signature(meta, g):
     from sigtools import signatures
     raw = g['raw_outer']
     if meta.get('modifier'):
-        return signatures.signature(g['target'])
+        return signatures.signature(g['raw_outer'] if meta['route'] == 'param_partial' else g['target'])
     if meta['route'] == 'wraps':
         saved = raw.__dict__.pop('__wrapped__')
         try:
